@@ -129,6 +129,10 @@ func init() {
 	add(word("$v$w", wPE("v"), wPE("w")))
 	add(word(`a"d"`, wLit("a"), wDQ(wLit("d"))))
 	add(word("a$(c)", wLit("a"), wCS(true, simpleCmd("c"))))
+	// a "$" that introduces nothing is an ordinary character (go.sh keeps it as a literal part of its own)
+	add(word("$", wLit("$")))
+	add(word("a$", wLit("a"), wLit("$")))
+	add(word("$v$", wPE("v"), wLit("$")))
 	// multi-byte and multi-line words (positions must count characters)
 	add(word("'é'", wSQ("é")))
 	add(word(`"é$v"`, wDQ(wLit("é"), wPE("v"))))
@@ -200,6 +204,9 @@ type rendered struct {
 func glueOK(a, b sym) bool {
 	if a.kind == kNL || b.kind == kNL || a.kind == kBroken || b.kind == kBroken || b.kind == kComment || a.kind == kComment {
 		return false
+	}
+	if a.kind == kWord && strings.HasSuffix(a.text, "$") && !strings.HasSuffix(a.text, "$$") && (b.kind == kOp && b.op == "(" || b.kind == kArith) {
+		return false // "a$" + "(" would begin a substitution
 	}
 	opLike := func(s sym) bool { return s.kind == kOp }
 	aOp := opLike(a) || a.kind == kArith
@@ -275,4 +282,14 @@ func renderLayout(ss []sym, tight bool) rendered {
 	}
 	r.src = b.String()
 	return r
+}
+
+// hasHere reports whether a here-document operator occurs among the symbols.
+func hasHere(ss []sym) bool {
+	for _, s := range ss {
+		if s.kind == kHere {
+			return true
+		}
+	}
+	return false
 }
